@@ -207,6 +207,7 @@ int pending_destructors(int group) {
 }
 
 void RecPages::allocate(void** out_pages, size_t num) noexcept {
+  sim::yield_point();  // a real page allocator synchronises inside
   int g = S->cur_group[tid() & 63];
   if (g < 0) fail("harness", "page-allocate-context", "page allocator called outside a harness API call");
   for (size_t i = 0; i < num; i++) {
@@ -223,6 +224,7 @@ void RecPages::allocate(void** out_pages, size_t num) noexcept {
 }
 
 void RecPages::deallocate(void** in_pages, size_t num) noexcept {
+  sim::yield_point();
   for (size_t i = 0; i < num; i++) {
     uintptr_t a = (uintptr_t)in_pages[i];
     auto it = pages.find(a);
